@@ -187,7 +187,9 @@ Definition check_stream_type (ty : option string) : bool :=
   String.eqb (match ty with Some t => t | None => l0_type_default end) l0_expected_type.
 
 (* ---------- flag stream upgrade ---------- *)
-Record cinfo := mkC { c_id : Z; c_dumps : Z; c_rest : list Z }.
+(* a chunk info: the id of the value, dumps and channel/baseline shape of its flags array, and the id of the value
+   that names where its chunks live (itself when it has a 'prefix', else the chunk name found by _ensure_prefix_is_set) *)
+Record cinfo := mkC { c_id : Z; c_dumps : Z; c_rest : list Z; c_from : Z }.
 (* a candidate archived stream as _upgrade_flags sees it through the candidate's view: its stream_type (None =
    absent or not a string), its src_streams (None = KeyError), its chunk info (None = KeyError) *)
 Record fstream := mkF { f_type : option string; f_src : option (list string); f_info : option cinfo }.
@@ -270,7 +272,7 @@ Definition align_chunk_info (arrays : list (list Z)) : list (list Z) :=
 (* The value of an immutable key is identified by its index in a value table; only the shapes the code looks at
    are distinguished: a string, a list of strings, a chunk_info (dumps and channel/baseline shape of its 'flags'
    array; all arrays of one stream have the same number of dumps), anything else. *)
-Inductive aval := AStr (s : string) | AStrs (l : list string) | AInfo (dumps : Z) (rest : list Z) | AOther.
+Inductive aval := AStr (s : string) | AStrs (l : list string) | AInfo (dumps : Z) (rest : list Z) (has_prefix : bool) | AOther.
 Definition vtable := list aval.
 
 Definition aget (st : store) (vals : vtable) (ps : list string) (k : string) : option (Z * aval) :=
@@ -290,6 +292,20 @@ Definition chain_of (st : store) (vals : vtable) (stream : string) : option (lis
    candidate's own inherit chain and then the namespaces of the opened stream
    (keys generated: fl_type_key fl_src_key fl_chunk_info_key).  None = outside the model: cyclic inherit chain,
    src_streams / chunk_info present with a value of another shape. *)
+(* telstate[key] followed by _ensure_prefix_is_set(info, telstate) through the view [ps]: an info without 'prefix' gets
+   telstate[ci_prefix_key] ('chunk_name', GENERATED) looked up through the SAME view.
+   None = a value of another shape (outside the model); Some None = KeyError (the info, or the chunk name it needs) *)
+Definition info_of (st : store) (vals : vtable) (ps : list string) (key : string) : option (option cinfo) :=
+  match aget st vals ps key with
+  | None => Some None
+  | Some (id, AInfo d rest hp) =>
+      if hp then Some (Some (mkC id d rest id))
+      else match aget st vals ps ci_prefix_key with
+           | Some (nid, _) => Some (Some (mkC id d rest nid))
+           | None => Some None
+           end
+  | Some _ => None
+  end.
 Definition fstream_of_with (prefixes_on : list string -> string -> list string -> list string)
     (st : store) (vals : vtable) (base : list string) (cb s : string) : option fstream :=
   match chain_of st vals s with
@@ -297,11 +313,9 @@ Definition fstream_of_with (prefixes_on : list string -> string -> list string -
   | Some streams =>
       let ps := prefixes_on base cb streams in
       let ty := astr (aget st vals ps fl_type_key) in
-      match aget st vals ps fl_src_key, aget st vals ps fl_chunk_info_key with
-      | Some (_, AStrs l), Some (id, AInfo d rest) => Some (mkF ty (Some l) (Some (mkC id d rest)))
-      | Some (_, AStrs l), None => Some (mkF ty (Some l) None)
-      | None, Some (id, AInfo d rest) => Some (mkF ty None (Some (mkC id d rest)))
-      | None, None => Some (mkF ty None None)
+      match aget st vals ps fl_src_key, info_of st vals ps fl_chunk_info_key with
+      | Some (_, AStrs l), Some i => Some (mkF ty (Some l) i)
+      | None, Some i => Some (mkF ty None i)
       | _, _ => None
       end
   end.
@@ -318,7 +332,7 @@ Fixpoint all_some {A} (l : list (option A)) : option (list A) :=
 Record omode := mkMode { m_store : bool; m_upgrade : option bool; m_ts : option Z }.
 (* what comes out: number of timestamps; if there is data: its number of dumps and the id of the chunk info its
    flags come from *)
-Record opened := mkOpened { o_ts : Z; o_data : option (Z * Z) }.
+Record opened := mkOpened { o_ts : Z; o_data : option (Z * Z * Z) }.
 Definition upgrade_on (m : omode) : bool := match m_upgrade m with Some b => b | None => ds_upgrade_default end.
 Definition has_ts (m : omode) : bool := match m_ts m with Some _ => true | None => false end.
 
@@ -334,7 +348,7 @@ Definition open_source (m : omode) (stream : string) (cur : cinfo) (archived : l
         let aligned := align_chunk_info [[c_dumps cur]; [c_dumps c]] in
         let n := dumps_of (nth 0 aligned []) in
         Ok (mkOpened (match m_ts m with Some k => k | None => n end)
-                     (if m_store m then Some (dumps_of (nth 1 aligned []), c_id c) else None))
+                     (if m_store m then Some (dumps_of (nth 1 aligned []), c_id c, c_from c) else None))
     end
   else if m_store m then Err 4
   else match m_ts m with Some k => Ok (mkOpened k None) | None => Err 4 end.
@@ -351,7 +365,7 @@ Definition spec_open (m : omode) (stream : string) (cur : cinfo) (archived : lis
       | Ok c =>
           let n := Z.max (c_dumps cur) (c_dumps c) in
           Ok (mkOpened (match m_ts m with Some k => k | None => n end)
-                       (if m_store m then Some (n, c_id c) else None))
+                       (if m_store m then Some (n, c_id c, c_from c) else None))
       end
   end.
 
@@ -367,19 +381,19 @@ Definition open_telstate_with (prefixes_on : list string -> string -> list strin
       let ps := prefixes_on [""] cb streams in
       if negb (check_stream_type (astr (aget st vals ps l0_type_key))) then Err 3
       else if ds_reads_chunk_info (m_store m) (has_ts m) then
-        match aget st vals ps ds_chunk_info_key with
-        | Some (id, AInfo d rest) =>
+        match info_of st vals ps ds_chunk_info_key with
+        | Some (Some cur) =>
             let fs := if upgrade_on m then
                         all_some (map (fstream_of_with prefixes_on st vals ps cb)
                                       (astrs (aget st vals ps fl_archived_key)))
                       else Some [] in
             match fs with
-            | Some fs => opener m stream (mkC id d rest) fs
+            | Some fs => opener m stream cur fs
             | None => Err 9
             end
         | _ => Err 2
         end
-      else opener m stream (mkC 0 0 []) []
+      else opener m stream (mkC 0 0 [] 0) []
   end.
 Definition open_telstate := open_telstate_with view_capture_stream_on open_source.
 Definition spec_open_telstate := open_telstate_with spec_prefixes_on spec_open.
@@ -480,27 +494,27 @@ Definition to_fstream (x : sx) : fstream :=
   match x with
   | L [ty; src; info] =>
       mkF (to_optstring ty) (match src with L [l] => Some (to_strings l) | _ => None end)
-          (match info with L [I i; I d; rest] => Some (mkC i d (to_Zs rest)) | _ => None end)
+          (match info with L [I i; I d; rest; I f] => Some (mkC i d (to_Zs rest) f) | _ => None end)
   | _ => mkF None None None
   end.
 Definition to_load (x : sx) : load := match x with L [e] => Raises (to_string e) | _ => Loaded end.
 Definition to_how (x : sx) : how :=
   match x with I 0 => HFromUrl | I 1 => HOds | L [e; s] => HOpen (to_bool e) (to_bool s) | _ => HFromUrl end.
 Definition of_res_cinfo (r : res cinfo) : sx :=
-  match r with Ok c => L [I (c_id c); I (c_dumps c); of_Zs (c_rest c)] | Err e => L [I (-1); I e] end.
+  match r with Ok c => L [I (c_id c); I (c_dumps c); of_Zs (c_rest c); I (c_from c)] | Err e => L [I (-1); I e] end.
 
 Definition to_aval (x : sx) : aval :=
   match x with
   | L [I 0; s] => AStr (to_string s)
   | L [I 1; l] => AStrs (to_strings l)
-  | L [I 2; I d; rest] => AInfo d (to_Zs rest)
+  | L [I 2; I d; rest; hp] => AInfo d (to_Zs rest) (to_bool hp)
   | _ => AOther
   end.
 Definition to_optbool (x : sx) : option bool := match x with L [b] => Some (to_bool b) | _ => None end.
 Definition to_mode (x : sx) : omode :=
   match x with L [s; u; t] => mkMode (to_bool s) (to_optbool u) (to_optZ t) | _ => mkMode false None None end.
 Definition of_opened (o : opened) : list sx :=
-  [I (o_ts o); match o_data o with Some (n, i) => L [I n; I i] | None => L [] end].
+  [I (o_ts o); match o_data o with Some (n, i, f) => L [I n; I i; I f] | None => L [] end].
 Definition of_res_url (r : res (string * string * opened)) : sx :=
   match r with
   | Ok (cb, sn, o) => L (I 0 :: of_string cb :: of_string sn :: of_opened o)
@@ -541,7 +555,7 @@ Definition wire_18 (x : sx) : sx :=
   | L [I 4; kw; url; file] => of_optstring (resolve_id (to_optstring kw) (to_optstring url) (to_optstring file))
   | L [I 5; ty] => of_bool (check_stream_type (to_optstring ty))
   | L [I 6; stream; L [I i; I d; rest]; archived] =>
-      let cur := mkC i d (to_Zs rest) in let ar := map to_fstream (to_list archived) in
+      let cur := mkC i d (to_Zs rest) i in let ar := map to_fstream (to_list archived) in
       L [of_res_cinfo (upgrade_flags (to_string stream) cur ar); of_res_cinfo (spec_upgrade (to_string stream) cur ar)]
   | L [I 7; arrays] => L (map of_Zs (align_chunk_info (map to_Zs (to_list arrays))))
   | L [I 8; m; st; vals; kwcb; urlcb; kwsn; urlsn] =>
@@ -549,7 +563,7 @@ Definition wire_18 (x : sx) : sx :=
       L [of_res_url (open_url m st vals (to_optstring kwcb) (to_optstring urlcb) (to_optstring kwsn) (to_optstring urlsn));
          of_res_url (spec_open_url m st vals (to_optstring kwcb) (to_optstring urlcb) (to_optstring kwsn) (to_optstring urlsn))]
   | L [I 9; m; stream; L [I i; I d; rest]; archived] =>
-      let cur := mkC i d (to_Zs rest) in let ar := map to_fstream (to_list archived) in
+      let cur := mkC i d (to_Zs rest) i in let ar := map to_fstream (to_list archived) in
       L [of_res_opened (open_source (to_mode m) (to_string stream) cur ar);
          of_res_opened (spec_open (to_mode m) (to_string stream) cur ar)]
   | L [I 10; st; vals; base; cb; s] =>
